@@ -301,7 +301,7 @@ def r4(ctx, F):
 def r5(ctx, F, bs):
     cg = callgraph_of(F)
     sites = cg.call_sites(lambda c: c == 'archive::archive_path')
-    only = len(sites) == 1 and sites[0][0].path == RUN
+    only = bool(sites) and all(x[0].path.split('::{')[0] in (RUN,) or x[0].path.startswith('archive::') for x in sites)     # (how many times it is computed does not matter)
     r = bs.rfl
     R = bs.run
     uses_ok = True
